@@ -687,6 +687,23 @@ def substitute_new_temporaries(fn, known_locals: set[str]) -> int:
     (names / attributes / constants / operators) used any number of times in the following statements of the same block, as long
     as nothing in between can rebind what it reads (no assignment to those names / attributes, no await / yield)."""
     n_done = 0
+    # `a, b = x, y` with new names on the left and pure values on the right is two plain assignments
+    for node in _walk_no_defs(fn):
+        for fld in ("body", "orelse", "finalbody"):
+            block = getattr(node, fld, None)
+            if not (isinstance(block, list) and block and isinstance(block[0], ast.stmt)):
+                continue
+            i = 0
+            while i < len(block):
+                st = block[i]
+                if isinstance(st, ast.Assign) and len(st.targets) == 1 and isinstance(st.targets[0], ast.Tuple) and isinstance(st.value, ast.Tuple) \
+                        and len(st.targets[0].elts) == len(st.value.elts) and all(isinstance(t, ast.Name) and t.id not in known_locals for t in st.targets[0].elts) \
+                        and all(_pure(v) for v in st.value.elts) \
+                        and not ({t.id for t in st.targets[0].elts} & {n.id for v in st.value.elts for n in ast.walk(v) if isinstance(n, ast.Name)}):
+                    block[i:i + 1] = [ast.copy_location(ast.Assign(targets=[t], value=v), st) for t, v in zip(st.targets[0].elts, st.value.elts)]
+                    i += len(st.value.elts)
+                    continue
+                i += 1
     changed = True
     while changed:
         changed = False
@@ -763,6 +780,7 @@ def _replace_node(root, old, new):
 
 # ------------------------------------------------------------------------------------------------ driver
 def normalise_module(tree: ast.Module, modname: str) -> dict:
+    """phase 1 (before the locals are renamed back): constants, helpers, temporaries"""
     r = ref()
     stats = {"constants": 0, "inlined": 0, "guards": 0, "temporaries": 0}
     mods = r.get("modules", {})
@@ -771,17 +789,35 @@ def normalise_module(tree: ast.Module, modname: str) -> dict:
     info = mods[modname]
     stats["constants"] = substitute_new_constants(tree, set(info.get("names", [])))
     stats["inlined"] = Inliner(tree, set(info.get("functions", []))).run()
-    tests = r.get("if_tests", {})
+    return stats
+
+
+def normalise_temporaries(tree: ast.Module, modname: str) -> int:
+    """phase 1b (after a first renaming pass, so that merely renamed locals are not mistaken for new temporaries)"""
     from . import alpha
 
+    r = ref()
     locs = r.get("functions", {})
+    n = 0
+    for key, fn in alpha.outermost_functions(tree, modname):
+        if key not in r.get("if_tests", {}):
+            continue
+        params = {a.arg for a in ast.walk(fn) if isinstance(a, ast.arg)}
+        n += substitute_new_temporaries(fn, {x[0] for x in locs.get(key, [])} | params)
+    return n
+
+
+def normalise_guards(tree: ast.Module, modname: str) -> int:
+    """phase 2 (after the locals were renamed back, so that tests can be compared with the table)"""
+    from . import alpha
+
+    tests = ref().get("if_tests", {})
+    n = 0
     for key, fn in alpha.outermost_functions(tree, modname):
         known = tests.get(key)
         if known is None:
             continue
-        params = {a.arg for a in ast.walk(fn) if isinstance(a, ast.arg)}
-        stats["temporaries"] += substitute_new_temporaries(fn, {x[0] for x in locs.get(key, [])} | params)
         g = _Guards(set(known))
         g.run(fn)
-        stats["guards"] += g.n
-    return stats
+        n += g.n
+    return n
